@@ -125,7 +125,8 @@ IcptRecs(A, st, R, var, val, cats, tab) ==
 RecVal(rec, key) == LET s == {x \in rec : x[1] = key} IN IF s = {} THEN Decline ELSE (CHOOSE x \in s : TRUE)[2]
 OvrVal(ovr, rec, fkey) ==
   CASE ovr.k = "const"  -> ovr.c
-    [] ovr.k = "addkey" -> IF RecVal(rec, ovr.key) = Decline THEN Decline ELSE RecVal(rec, ovr.key) + ovr.n
+    \* the harness's override functions decline for values that are not numbers (None, True, exceptions: codes >= 100000)
+    [] ovr.k = "addkey" -> IF RecVal(rec, ovr.key) = Decline \/ Num(RecVal(rec, ovr.key)) >= 100000 THEN Decline ELSE RecVal(rec, ovr.key) + ovr.n
     [] ovr.k = "iflt"   -> IF Num(RecVal(rec, fkey)) < ovr.n THEN ovr.c ELSE Decline
     \* the value the program computed itself, as a float: equal to it, yet another object - the substitution must happen
     [] ovr.k = "samefloat" -> IF Num(RecVal(rec, fkey)) < 100000 THEN FloatBase + Num(RecVal(rec, fkey)) ELSE Decline
